@@ -638,8 +638,11 @@ class DataLinkConnection(TransmissionControlObject):
 
         elif self.state.CONNECT and rcvd_pdu.name in ("CC", "DM"):
             with self.lock:
-                self.recv_queue.append(rcvd_pdu)
-                self.recv_ready.notify()
+                # only the first answer counts, a second one would stay
+                # in the queue and be taken for data by recv()
+                if len(self.recv_queue) == 0:
+                    self.recv_queue.append(rcvd_pdu)
+                    self.recv_ready.notify()
 
         elif self.state.DISCONNECT and rcvd_pdu.name == "DM":
             with self.lock:
